@@ -10,7 +10,11 @@ pub struct TraceOut {
     writers: Vec<BufWriter<File>>,
     pub counts: Vec<usize>,
     cur: usize,
+    bytes: u64,
 }
+
+/// A recorder that writes more than this is broken (a quadratic blow-up): stop instead of filling the disk.
+const MAX_TRACE_BYTES: u64 = 6 << 30;
 
 impl TraceOut {
     pub fn new(dir: &Path, name: &str, shards: usize) -> Self {
@@ -20,7 +24,7 @@ impl TraceOut {
             let p: PathBuf = dir.join(format!("{}.{}.ndjson", name, i));
             writers.push(BufWriter::new(File::create(p).expect("create trace file")));
         }
-        TraceOut { writers, counts: vec![0; shards], cur: 0 }
+        TraceOut { writers, counts: vec![0; shards], cur: 0, bytes: 0 }
     }
 
     /// Moves to the next shard (call between independent segments).
@@ -41,7 +45,13 @@ impl TraceOut {
 
     pub fn emit(&mut self, v: Value) {
         let w = &mut self.writers[self.cur];
-        serde_json::to_writer(&mut *w, &v).expect("write event");
+        let line = serde_json::to_vec(&v).expect("encode event");
+        self.bytes += line.len() as u64 + 1;
+        if self.bytes > MAX_TRACE_BYTES {
+            eprintln!("fdv: trace output exceeds {} bytes - recorder bug, aborting", MAX_TRACE_BYTES);
+            std::process::exit(3);
+        }
+        w.write_all(&line).expect("write event");
         w.write_all(b"\n").expect("write newline");
         self.counts[self.cur] += 1;
     }
